@@ -1813,9 +1813,77 @@ def _dedupe_inlined_runs(tree):
     return n
 
 
+def lift_nested_functions(tree, known=None):
+    """A function defined inside another and only ever CALLED there (never stored, returned or passed on) is lifted to module
+    level with the enclosing function's variables it reads as extra keyword parameters - the value each has at the call, which is
+    what the closure would have read.  The lifted function is then a new helper like any other (inlined by P4).  Not lifted (left
+    as it is): generators, decorated / defaulted / recursive functions, closures that assign an outer variable (nonlocal), and
+    functions that are handed on as a value (a completion callback)."""
+    n_lifted = 0
+    module_names = {n.id for st in tree.body for n in ast.walk(st) if isinstance(n, ast.Name) and isinstance(n.ctx, ast.Store) and st in tree.body
+                    and isinstance(st, (ast.Assign, ast.AnnAssign))}
+    module_names |= {st.name for st in tree.body if isinstance(st, (ast.FunctionDef, ast.ClassDef))}
+    for st in tree.body:
+        if isinstance(st, (ast.Import, ast.ImportFrom)):
+            module_names |= {(a.asname or a.name).split(".")[0] for a in st.names}
+
+    def outer_functions(body, top):
+        for st in body:
+            if isinstance(st, ast.FunctionDef):
+                yield st, top if top is not None else st
+            elif isinstance(st, ast.ClassDef):
+                yield from outer_functions(st.body, top if top is not None else st)
+    for f, top in list(outer_functions(tree.body, None)):
+        if "plot" in f.name:
+            continue                                           # plotting is outside every property
+        for g in [x for x in f.body if isinstance(x, ast.FunctionDef)]:
+            a = g.args
+            if g.decorator_list or a.defaults or a.kw_defaults or a.vararg or a.kwarg or a.kwonlyargs or a.posonlyargs:
+                continue
+            if any(isinstance(n, (ast.Yield, ast.YieldFrom, ast.Nonlocal, ast.Global, ast.Lambda, ast.FunctionDef)) and n is not g for n in ast.walk(g)):
+                continue
+            uses = [n for n in ast.walk(f) if isinstance(n, ast.Name) and n.id == g.name and isinstance(n.ctx, ast.Load)]
+            calls = [n for n in ast.walk(f) if isinstance(n, ast.Call) and isinstance(n.func, ast.Name) and n.func.id == g.name]
+            if not calls or len(uses) != len(calls) or any(n in ast.walk(g) for n in uses):
+                continue                                       # stored / passed on / recursive
+            if any(isinstance(k.value, ast.Starred) for c in calls for k in c.args if isinstance(k, ast.Starred)) or any(k.arg is None for c in calls for k in c.keywords):
+                continue
+            params = {x.arg for x in a.args}
+            stores = {n.id for n in ast.walk(g) if isinstance(n, ast.Name) and isinstance(n.ctx, ast.Store)}
+            f_locals = {x.arg for x in f.args.args + f.args.kwonlyargs} | {n.id for n in ast.walk(f) if isinstance(n, ast.Name) and isinstance(n.ctx, ast.Store)}
+            free = []
+            for n in ast.walk(g):
+                if isinstance(n, ast.Name) and isinstance(n.ctx, ast.Load) and n.id not in params and n.id not in stores \
+                        and n.id in f_locals and n.id not in free:
+                    free.append(n.id)
+            if any(n in stores for n in free):
+                continue
+            new_name = g.name
+            k_ = 0
+            while new_name in module_names:
+                k_ += 1
+                new_name = f"{g.name}_{k_}"
+            module_names.add(new_name)
+            lifted = ast.FunctionDef(name=new_name, args=ast.arguments(posonlyargs=[], args=[ast.arg(arg=x.arg) for x in a.args] + [ast.arg(arg=v) for v in free],
+                                                                   vararg=None, kwonlyargs=[], kw_defaults=[], kwarg=None, defaults=[]),
+                                     body=g.body, decorator_list=[], returns=None, type_comment=None)
+            ast.copy_location(lifted, g)
+            for c in calls:
+                c.func = ast.copy_location(ast.Name(id=new_name, ctx=ast.Load()), c.func)
+                c.keywords = list(c.keywords) + [ast.keyword(arg=v, value=ast.copy_location(ast.Name(id=v, ctx=ast.Load()), c)) for v in free]
+            f.body.remove(g)
+            tree.body.insert(tree.body.index(top), lifted)
+            n_lifted += 1
+    if n_lifted:
+        ast.fix_missing_locations(tree)
+    return n_lifted
+
+
 def canonicalise_program(trees, known_by_rel, params_by_rel=None):
     """P1-P4 over every parsed module; P4 sees the whole program (helpers inherited across files)."""
     for rel, tree in trees.items():
+        if known_by_rel.get(rel) is not None:
+            lift_nested_functions(tree, known_by_rel.get(rel))
         inline_module_constants(tree)
         numpy_spellings(tree)
         from .canon2 import respell
